@@ -5,6 +5,7 @@
 import PasfmtModel.Model.Mls
 import PasfmtModel.Model.Contracts
 import PasfmtModel.Proofs.MlsSim
+import PasfmtModel.Proofs.LinesCustom
 
 namespace Pasfmt.C12
 
@@ -131,5 +132,18 @@ theorem mls_values_preserved (S : Settings) (ind cont : Nat) (vs : List Bytes) :
   | cons v vs ih =>
     simp only [List.map_cons, List.mapM_cons, lineValue_lineText, ih]
     rfl
+
+/-- **`lines_custom` splits at LF, CR and CR LF and at nothing else, and loses no byte of a line**: the model of the
+    Rust code (a `split_inclusive` with a stateful closure, then `trim_matches(['\n','\r'])`) equals the reference
+    definition by cases `refLines`, for every text that does not end in CR LF (a multi-line literal ends in a quote). -/
+theorem lines_custom_splits_at_terminators (s : Bytes) (h : ¬ ∃ p, s = p ++ [0x0D, 0x0A]) :
+    linesCustom s = refLines s :=
+  linesCustom_eq_refLines s h
+
+-- `a⏎b` with CR LF, `b` ended by a lone CR, `c` by LF, an empty line, `d` unterminated
+example : refLines [0x61, 0x0D, 0x0A, 0x62, 0x0D, 0x63, 0x0A, 0x0A, 0x64] = [[0x61], [0x62], [0x63], [], [0x64]] := by decide
+example : linesCustom [0x61, 0x0D, 0x0A, 0x62, 0x0D, 0x63, 0x0A, 0x0A, 0x64] = [[0x61], [0x62], [0x63], [], [0x64]] := by decide
+-- the excluded case: a final CR LF yields one more (empty) line in the Rust code
+example : linesCustom [0x61, 0x0D, 0x0A] = [[0x61], []] ∧ refLines [0x61, 0x0D, 0x0A] = [[0x61]] := by decide
 
 end Pasfmt.C12
